@@ -71,12 +71,12 @@ void *ldb_malloc(size_t n) { void *p = malloc(n); __CPROVER_assume(p != NULL); r
 void ldb_free(void *p) { free(p); }
 #ifndef BLM_REAL_BUFFER
 /* model of ldb_buffer_pad (verified against buffer.c by buf.pad): the buffer moves (worst case for stale pointers),
- * the xn new bytes are zero, earlier content is kept (tracked byte g_pb), size grows by xn */
+ * earlier content is kept (tracked byte g_pb), size grows by xn; the zero fill of the new bytes is not modelled */
 uint8_t *ldb_buffer_pad(ldb_buffer_t *z, size_t xn) {
   size_t zn = z->size + xn, slack = nondet_size(); uint8_t *nd;
   __CPROVER_assume(slack <= 16);
   g_pad_xn = xn; g_pad_calls++;
-  nd = calloc(zn + slack + 1, 1); __CPROVER_assume(nd != NULL);
+  nd = malloc(zn + slack + 1); __CPROVER_assume(nd != NULL);   /* content arbitrary: nothing proved here depends on the zero fill (buf.pad proves it) */
   if (g_pb < z->size) nd[g_pb] = z->data[g_pb];
   z->data = nd; z->alloc = zn + slack + 1; z->size = zn;
   return nd + (zn - xn);
@@ -177,7 +177,7 @@ void h_add(void) {
 /* ================================================================ blm.build : any number of keys (loop contract, bloom_add by contract) */
 void h_build(void) {
   ldb_bloom_t pol; ldb_buffer_t dst; ldb_slice_t *keys; size_t n = nondet_size(), pre = nondet_size(), bytes, bits, old_size; uint8_t *f;
-  ASSUME(n <= ((size_t)1 << 24) && pre <= ((size_t)1 << 30));
+  ASSUME(n <= ((size_t)1 << 20) && pre <= ((size_t)1 << 20));
   pol.bits_per_key = nondet_size(); ASSUME(pol.bits_per_key <= 1024);
   pol.k = nondet_size();
   keys = malloc((n + 1) * sizeof(ldb_slice_t)); ASSUME(keys != NULL);
@@ -230,11 +230,8 @@ const uint8_t *g_hd; size_t g_hn;
 uint32_t c_hash(const uint8_t *data, size_t size, uint32_t seed)
 __CPROVER_requires(size <= MAXLEN && (size == 0 || __CPROVER_r_ok(data, size)) && data == g_hd && size == g_hn)
 __CPROVER_assigns()
-/* short keys in closed form (LevelDB util/hash.cc): no 4-byte step, the tail bytes are added little-endian, one mix */
+/* the empty key hashes to the seed (LevelDB util/hash.cc: h = seed ^ (n * m), no step, no tail) */
 __CPROVER_ensures(size != 0 || __CPROVER_return_value == seed)
-__CPROVER_ensures(size != 1 || __CPROVER_return_value == (uint32_t)((((seed ^ HM) + data[0]) * HM) ^ ((uint32_t)(((seed ^ HM) + data[0]) * HM) >> 24)))
-__CPROVER_ensures(size != 2 || __CPROVER_return_value == (uint32_t)((((seed ^ (uint32_t)(2 * HM)) + ((uint32_t)data[1] << 8) + data[0]) * HM) ^
-                                 ((uint32_t)(((seed ^ (uint32_t)(2 * HM)) + ((uint32_t)data[1] << 8) + data[0]) * HM) >> 24)))
 ;
 void h_hash(void) {
   IN_SIZE(in_n); IN_BUF(buf, in_n); SNAP_BUF(buf, in_n); IN_U32(in_seed);
